@@ -22,7 +22,7 @@ MODEL_FILES = ["Model/C13_json.v", "Model/C13_config.v"]
 ALLOWED_AXIOMS: list[str] = []
 CASE_HEADER = ("From Coq Require Import String List.\nFrom LK Require Import Lib.StrDict Gen.C13_shape Model.C13_json Model.C13_config.\n"
                "Import ListNotations.\nOpen Scope string_scope.")
-SHARD = 20
+SHARD = 16
 SEARCH_CASES = 0     # the generic one-case-at-a-time search would start five interpreters per case; see search()
 TRUSTED = [
     "Coq 8.16.1 kernel + vm_compute (no native_compute); Print Assumptions of every theorem in Props/C13.v: closed under the global context",
@@ -45,7 +45,9 @@ ASSUMPTIONS = [
     "unchecked builder calls are used as documented: literal names are fresh, replace_component names an existing component, "
     "default connections point to member nodes",
 ]
-RULE = ("generated graphs: 1-4 inputs (0-4 types each incl. None, generics, unions, nested classes), 0-2 named literals, 1-7 components over 17 "
+RULE = ("builder histories: the same PipelineBuilder is observed (config_hash / meta / build_config / build, then hash, built pipeline and its clone) at 2-5 "
+        "points with edits of every kind in between (name, version, default node, aliases, connections, replaced components and settings, literals, default "
+        "connections), and a builder loaded from the document is edited once more and built; generated graphs: 1-4 inputs (0-4 types each incl. None, generics, unions, nested classes), 0-2 named literals, 1-7 components over 17 "
         "importable functions/classes (class+dict, instance, plain function, non-Component callable; settings incl. alias-validated fields, nulls, "
         "nested lists/dicts, floats), connections in shuffled declaration order, later connect/clear/replace edits, default connections, aliases "
         "(also of aliases), default node, named/unnamed/versioned; a second declaration order of the same graph; 1/8 malformed (name clashes, "
@@ -259,7 +261,53 @@ def gen_graph(rng, malformed=False):
         a = rng.choice(aliases)
         ops.append({"op": "connect", "name": a, "ins": [["x", pick_target()]]})
 
+    # --- builder history: the same builder is observed several times with edits of every kind in between ---
+    n_in = len(in_names)
+    first_comp = next(i for i, o in enumerate(ops) if o["op"] in ("add", "first_of"))
+    for pos in sorted((rng.randint(first_comp + 1, len(ops)) for _ in range(rng.randint(1, 2))), reverse=True):
+        ops.insert(pos, {"op": "observe", "how": rng.choice(["hash", "meta", "config", "build"])})
+    if not any(o["op"] == "observe" for o in ops[-2:]):
+        ops.append({"op": "observe", "how": rng.choice(["hash", "meta", "config", "build"])})
+    tail_lits = 0
+    for _ in range(rng.randint(1, 3)):
+        for _ in range(rng.randint(1, 2)):
+            kind = rng.choice(["set_name", "set_version", "defcomp", "alias", "connect", "replace", "settings", "literal", "defconn"])
+            cn, ck = rng.choice(comps)
+            if kind == "set_name":
+                ops.append({"op": "set_name", "value": rng.choice([None, "renamed", "other é", name])})
+            elif kind == "set_version":
+                ops.append({"op": "set_version", "value": rng.choice([None, "3", "2025.2", version])})
+            elif kind == "defcomp":
+                ops.append({"op": "defcomp", "name": rng.choice(aliases + [c for c, _ in comps])})
+            elif kind == "alias":
+                free = [a for a in ["t-al", "t-al2", "t-al3"] if a not in aliases]
+                if free:
+                    ops.append({"op": "alias", "alias": free[0], "node": rng.choice(nodes)})
+                    aliases.append(free[0])
+            elif kind == "connect" and SIGS[ck]:
+                ops.append({"op": "connect", "name": cn, "ins": [[rng.choice(SIGS[ck]), {"node": rng.choice(nodes[:n_in])}]]})
+            elif kind in ("replace", "settings"):
+                i = rng.below(len(comps))
+                cn, ck = comps[i]
+                nc = ck if kind == "settings" and ck in ("Scale", "Affine", "Aliased", "Shift") else rng.choice(["Scale", "Affine", "Aliased", "inc"])
+                st = rng.choice(STYLES[nc])
+                rop = {"op": "replace", "name": cn, "comp": nc, "style": st, "ins": []}
+                if st in ("class", "instance"):
+                    rop["settings"] = gen_settings(rng, nc) or {}
+                ops.append(rop)
+                comps[i] = (cn, nc)
+            elif kind == "literal":
+                tail_lits += 1
+                ops.append({"op": "literal", "name": f"LT{tail_lits}", "value": rng.choice(LIT_VALUES)})
+            elif kind == "defconn":
+                ops.append({"op": "defconn", "param": rng.choice(["user", "item", "a", "v", "c"]), "target": {"node": rng.choice(nodes[:n_in])}})
+        if rng.chance(1, 2):
+            ops.append({"op": "observe", "how": rng.choice(["hash", "meta", "config", "build"])})
+
     case = {"kind": "graph", "name": name, "version": version, "ops": ops, "style": "graph"}
+    case["fc_edit"] = rng.choice([
+        {"kind": "default", "value": rng.choice([c for c, _ in comps])}, {"kind": "name", "value": "reloaded-and-renamed"},
+        {"kind": "version", "value": "9.9"}, {"kind": "alias", "alias": "fc-al", "value": rng.choice(nodes[:n_in])}])
     if malformed:
         m = rng.choice(["input-clash", "add-clash", "alias-clash", "missing-target", "wire-input", "missing-alias-target", "remove-missing",
                         "cycle", "default-cycle", "bad-settings", "missing-default", "replace-new", "empty-default"])
@@ -302,6 +350,8 @@ def gen_graph(rng, malformed=False):
         perm = rng.shuffle(alias_block) if alias_ok else alias_block
         ai = 0
         for o in ops:
+            if o["op"] == "observe":
+                continue
             o2 = dict(o)
             if "ins" in o2:
                 o2["ins"] = rng.shuffle(o2["ins"])
@@ -375,7 +425,7 @@ _CACHE: dict = {}
 
 
 def gen_cases(rng, tier):
-    n = 320 if tier == "quick" else 1600
+    n = 256 if tier == "quick" else 1600
     out = []
     for k in range(n):
         r = rng.fork(k)
@@ -623,7 +673,13 @@ def c_ops(ops, results):
     for op, r in zip(ops, results):
         k = op["op"]
         lits = list(r.get("lits", []))
-        if k == "input":
+        if k == "observe":
+            continue
+        if k == "set_name":
+            out.append(f"OSetName {costr(op['value'])}")
+        elif k == "set_version":
+            out.append(f"OSetVersion {costr(op['value'])}")
+        elif k == "input":
             ts = [t for key in op["types"] for t in TYPE_NAMES[key]]
             out.append(f"OInput {cname(op['name'])} [" + "; ".join(cname(t) for t in ts) + "]")
         elif k == "literal":
@@ -662,6 +718,16 @@ def _all_built(obs):
         for r in o.get("reloads", []):
             if r.get("err") == 0:
                 yield r
+        for resk in ("ops", "ops2"):
+            for r in o.get(resk) or []:
+                c = r.get("obs")
+                if c:
+                    for k in ("built", "clone"):
+                        if k in c and c[k].get("err") == 0:
+                            yield c[k]
+        e = o.get("from_config_edit")
+        if e and e.get("err") == 0:
+            yield e
 
 
 def tables(case, obs):
@@ -758,10 +824,40 @@ def _coq_term(case, obs):
                     continue
                 seen.add(sig)
                 ops = c_ops(case[opsk], o[resk])
-                codes = clist([r["err"] for r in o[resk]], cnat)
+                codes = clist([r["err"] for op_, r in zip(case[opsk], o[resk]) if op_["op"] != "observe"], cnat)
                 parts.append(f"(let r := case_run T {costr(case.get('name'))} {costr(case.get('version'))}\n  {ops} in\n"
                              f"  agree_ops r {codes} && agree_built (case_build T (fst r)) {c_built(o[bk])}"
                              + (f" && agree_clone T (fst r) {c_reload(o['clone'])}" if "clone" in o and opsk == "ops" else "") + ")")
+        # the same builder observed in the middle of its history: the model of the builder state at that moment
+        seen = set()
+        for o in procs:
+            for i, (op_, r) in enumerate(zip(case["ops"], o["ops"])):
+                if op_["op"] != "observe":
+                    continue
+                c = r["obs"]
+                sig = json.dumps([i, {k: c["built"].get(k) for k in ("err", "js_ex", "js_full", "pre")}, c.get("clone", {}).get("js_ex"), c.get("clone", {}).get("warn")])
+                if sig in seen:
+                    continue
+                seen.add(sig)
+                pre_ops = c_ops(case["ops"][:i], o["ops"][:i])
+                parts.append(f"(let r := case_run T {costr(case.get('name'))} {costr(case.get('version'))}\n  {pre_ops} in\n"
+                             f"  agree_built (case_build T (fst r)) {c_built(c['built'])}"
+                             + (f" && agree_clone T (fst r) {c_reload(c['clone'])}" if "clone" in c else "") + ")")
+        # a builder loaded from the document, edited once more, built
+        seen = set()
+        for o in procs:
+            e = o.get("from_config_edit")
+            if e is None or o["built"].get("err"):
+                continue
+            sig = json.dumps([o["built"]["js_full"], e.get("err"), e.get("js_ex")])
+            if sig in seen:
+                continue
+            seen.add(sig)
+            ed = case["fc_edit"]
+            mop = {"default": lambda: f"(ODefaultComp {cname(ed['value'])})", "name": lambda: f"(OSetName (Some {cname(ed['value'])}))",
+                   "version": lambda: f"(OSetVersion (Some {cname(ed['value'])}))",
+                   "alias": lambda: f"(OAlias {cname(ed['alias'])} {cname(ed['value'])})"}[ed["kind"]]()
+            parts.append(f"agree_built (case_reload_edit T {c_config(json.loads(o['built']['js_full']))} {mop}) {c_built(e)}")
     else:
         b = first["built"]
         if b.get("err") == 0:
@@ -825,7 +921,13 @@ def oracle(case, obs):
             bad("hash-field", "meta.hash differs from config_hash")
         if b["js_ex"] != b0["js_ex"] or b["hash"] != b0["hash"]:
             bad("hash-differs-across-processes", f"the same pipeline has hash {b['hash'][:12]} under PYTHONHASHSEED={s} and {b0['hash'][:12]} under {obs['producer_seed']}")
-        if case["kind"] == "graph" and (b["name"] != case.get("name") or b["version"] != case.get("version")):
+        exp_name, exp_version = case.get("name"), case.get("version")
+        for op_ in case.get("ops", []):
+            if op_["op"] == "set_name":
+                exp_name = op_["value"]
+            elif op_["op"] == "set_version":
+                exp_version = op_["value"]
+        if case["kind"] == "graph" and (b["name"] != exp_name or b["version"] != exp_version):
             bad("name-version", "built pipeline does not carry the builder's name/version")
         if not _sorted_shape(b["js_full"]):
             bad("unsorted-document", "wiring, aliases or type sets are not serialised in sorted order")
@@ -856,6 +958,49 @@ def oracle(case, obs):
             bad("builder-from-config", f"PipelineBuilder.from_config(json) disagrees: {bf}")
         if b.get("runs") != b0.get("runs"):
             bad("runs-differ-across-processes", "the same pipeline returns different results in another process")
+    # builder histories: the same builder observed several times with edits in between
+    if case["kind"] == "graph":
+        for s, o in procs.items():
+            prev, since = None, []
+            points = [(op_, r.get("obs")) for op_, r in zip(case["ops"], o["ops"])] + [({"op": "observe", "how": "final build"}, {"built": o["built"], "clone": o.get("clone")})]
+            for op_, c in points:
+                if op_["op"] != "observe":
+                    since.append(op_)
+                    continue
+                hist = "after [" + ", ".join(x["op"] + (":" + str(x.get("name", x.get("value", x.get("alias", "")))) if x["op"] in ("defcomp", "set_name", "set_version", "alias") else "") for x in since[-6:]) \
+                       + f"] observed by {op_['how']} (seed {s})"
+                bb = c["built"]
+                if not bb.get("err"):
+                    if hashlib.sha256(bb["pre"].encode()).hexdigest() != bb["hash"]:
+                        bad("history:recorded-hash-is-not-the-hash-of-the-content", f"builder {hist}: the built configuration records hash {bb['hash'][:12]} "
+                            f"but its content hashes to {hashlib.sha256(bb['pre'].encode()).hexdigest()[:12]}")
+                    for k in ("first", "config_hash"):
+                        if c.get(k) is not None and c[k] != bb["hash"]:
+                            bad("history:hash-differs-between-calls", f"builder {hist}: {k} returned {c[k][:12]}, build() records {bb['hash'][:12]}")
+                    cl = c.get("clone")
+                    if cl is not None:
+                        if cl.get("err"):
+                            bad("history:clone-fails", f"builder {hist}: clone of the pipeline it builds raised (error {cl['err']})")
+                        else:
+                            if cl["warn"]:
+                                bad("history:clone-warns", f"builder {hist}: cloning the pipeline it builds warns about a hash mismatch")
+                            if cl["hash"] != bb["hash"]:
+                                bad("history:clone-differs", f"builder {hist}: the clone has hash {cl['hash'][:12]}, the pipeline {bb['hash'][:12]}")
+                    if prev is not None and not prev.get("err"):
+                        if (prev["pre"] != bb["pre"]) != (prev["hash"] != bb["hash"]):
+                            kinds = sorted({x["op"] for x in since})
+                            bad("history:change-does-not-change-hash:" + "+".join(kinds), f"builder {hist}: the content "
+                                + ("changed but the hash did not" if prev["pre"] != bb["pre"] else "did not change but the hash did"))
+                    prev, since = bb, []
+            e = o.get("from_config_edit")
+            if e is not None and not o["built"].get("err") and not e.get("err"):
+                what = f"PipelineBuilder.from_config(document with hash) then {case['fc_edit']} then build() (seed {s})"
+                if hashlib.sha256(e["pre"].encode()).hexdigest() != e["hash"]:
+                    bad("history:from-config-edit-keeps-old-hash", f"{what}: the recorded hash is not the hash of the content")
+                if e["pre"] != o["built"]["pre"] and e["hash"] == o["built"]["hash"]:
+                    bad("history:from-config-edit-does-not-change-hash", f"{what}: the edit did not change the hash")
+                if e.get("clone", {}).get("warn"):
+                    bad("history:from-config-edit-clone-warns", f"{what}: cloning the result warns about a hash mismatch")
     # documents reloaded in the other processes
     for s, o in obs["others"].items():
         for (label, text, expect), r in zip(obs["docs"], o.get("reloads", [])):
@@ -929,6 +1074,8 @@ def counters(case, obs):
         for r in obs["first"]["ops"]:
             if r["err"]:
                 yield f"op-error={r['err']}"
+        if case.get("fc_edit"):
+            yield "from-config-then-edit=" + case["fc_edit"]["kind"]
         for o in case["ops"]:
             yield "op=" + o["op"]
             if o["op"] in ("add", "replace"):
